@@ -359,6 +359,22 @@ def run(ctx):
                                 if not entry.startswith('WcMatch'):
                                     one_case(ctx, mon, entry, [('q1', set(), 1, 1)], [sp], L6 + 1, root)
                                 ctx.count('non_splitting_pipe_cases')
+                    # empty pieces of a SPLIT text are patterns like any other (6 pieces, 4 of them distinct)
+                    emp = ('a||b||c|', {'SPLIT'}, 4, 6)
+                    for L6 in (3, 6, 7, 2):
+                        one_case(ctx, mon, entry, [emp], [], L6, root)
+                        if not entry.startswith('WcMatch'):
+                            one_case(ctx, mon, entry, [('q1', set(), 1, 1)], [emp], L6 + 1, root)
+                        ctx.count('empty_piece_cases')
+                    one_case(ctx, mon, entry, [('|' * 1200, {'SPLIT'}, 1, 1201)], [], None, root)
+                    # exclusions alone under NEGATEALL: the implicit match-everything inclusion is not one of the caller's patterns
+                    if not entry.startswith('WcMatch'):
+                        for ne in (1, 3, 5):
+                            ex_ = ('e{%s}' % ','.join('v%d' % i for i in range(ne)), {'BRACE', 'NEGATEALL'}, ne, ne) if ne > 1 else ('e1', {'NEGATEALL'}, 1, 1)
+                            for L6 in (ne, ne + 1, ne - 1):
+                                if L6 >= 1:
+                                    one_case(ctx, mon, entry, [], [ex_], L6, root, inline=True)
+                                    ctx.count('negateall_limit_cases')
                     B = lambda t, n: ('%s{%s}' % (t, ','.join('v%d' % i for i in range(n))), {'BRACE'}, n, n)  # noqa: E731
                     for lst, L6 in (([B('a', 2), ('c', set(), 1, 1), B('d', 2)], 5), ([B('a', 2), B('c', 2), B('e', 3)], 8), ([B('a', 2), B('c', 2), B('e', 3)], 7),
                                     ([B('a', 2), B('c', 2), B('e', 3)], 6), ([B('a', 3), ('c', set(), 1, 1), ('d', set(), 1, 1), B('e', 4)], 9),
